@@ -973,8 +973,9 @@ impl Actor for Controller {
                 if w.now >= t {
                     if !self.obs.forced { return self.force_now(w); }
                     // the hub ignores its own Stopping state: nothing sane is left
-                    eprintln!("hubsim: the hub does not leave run() even when forced; aborting the process");
-                    std::process::abort();
+                    // the real main loop no longer reaches a state in which it would stop: that is the outcome of this run
+                    eprintln!("hubsim: the hub does not leave run() even when forced");
+                    crate::framework::fatal_violation(w.seed, "hub_wedged", "the main process ignores its own Stopping state", crate::framework::Violation::new("no_exit", "main_process_never_leaves_run", format!("the main process was told to stop (run_state = Stopping) and was still inside run() {} ms of virtual time later", (w.now.saturating_sub(t)) / crate::world::MS + 4 * self.step_patience / crate::world::MS)));
                 }
                 Step::Idle(t)
             }
